@@ -10,8 +10,14 @@ CONSTANTS
   Budget = 5
   WireCap = 3
   DoExport = TRUE
+  DeadlineBug = "none"
+  Acts = {"open","accept","cancel","write","read","cw","close"}
+  Modes = {}
+  DlEnds = {0, 1}
+  PreEst = FALSE
+  BlockOnRoom = FALSE
   TrackKinds = {"zr","rt"}
 SPECIFICATION Spec
 VIEW view
-INVARIANT InvInOrder InvEOFComplete InvNoCrossTalk InvNoViolation InvWindow InvWire Export
+INVARIANT InvTokens InvInOrder InvEOFComplete InvNoCrossTalk InvNoViolation InvWindow InvWire Export
 CHECK_DEADLOCK FALSE
